@@ -809,16 +809,18 @@ Proof.
   split; [cbn; lia|]. repeat split; vm_compute; reflexivity.
 Qed.
 
-(* ---------- a[:, n] with an ndarray n of two or more elements raises ValueError (elementwise `n == open_slice`); NumPy reads
-   the block.  With at most one element the block is NumPy's ---------- *)
-Theorem C09_open_nd_refuted : ~ open_nd_statement.
-Proof. exact open_nd_refuted. Qed.
-Print Assumptions C09_open_nd_refuted.
-Theorem C09_open_nd_short : forall rows M n w, Forall2 Rv rows M -> Forall (fun c => length c = w) rows -> valid_index w n ->
-  match n with IList l => (length l <= 1)%nat | IMask mk => (length mk <= 1)%nat | _ => False end ->
-  exists B B', arrF_get_open_nd rows n = GDense2F B /\ np_get_block M IOpen n = Ok B' /\ Forall2 (Forall2 Qeq) B B'.
-Proof. exact open_nd_short. Qed.
-Print Assumptions C09_open_nd_short.
-Example C09_ex_open_nd : valid_index 2 (IList [1]%nat) /\ arrF_get_open_nd [of_dense [1; 2]] (IList [1]%nat) = GDense2F [[2]] /\
-  arrF_get_open_nd [of_dense [1; 2]] (IList [0; 1]%nat) = GErr EValue.
+(* ---------- a[:, n] with an ndarray n (int array or mask): with pending_fixes/C09_9 (the class of n is tested before the
+   comparison with open_slice) it is NumPy's block for every such n; the unrepaired source raises ValueError as soon as n has
+   two elements (legacy flag of arrF_get_open_nd, chosen by the harness after probing the tree) ---------- *)
+Theorem C09_open_nd_refines : forall rows M n w, Forall2 Rv rows M -> Forall (fun c => length c = w) rows -> valid_index w n ->
+  match n with IList _ | IMask _ => True | _ => False end ->
+  exists B B', arrF_get_open_nd false rows n = GDense2F B /\ np_get_block M IOpen n = Ok B' /\ Forall2 (Forall2 Qeq) B B' /\
+               length B = length rows.
+Proof. exact open_nd_refines. Qed.
+Print Assumptions C09_open_nd_refines.
+Theorem C09_legacy_open_nd_refuted : ~ open_nd_legacy_statement.
+Proof. exact open_nd_legacy_refuted. Qed.
+Print Assumptions C09_legacy_open_nd_refuted.
+Example C09_ex_open_nd : valid_index 2 (IList [0; 1]%nat) /\ arrF_get_open_nd false [of_dense [1; 2]] (IList [1; 0]%nat) = GDense2F [[2; 1]] /\
+  arrF_get_open_nd true [of_dense [1; 2]] (IList [0; 1]%nat) = GErr EValue.
 Proof. split; [repeat constructor|]. split; vm_compute; reflexivity. Qed.
